@@ -425,8 +425,16 @@ def probe_known(entry):
                 return True
             return False
 
+        def caught(f):
+            try:
+                f()
+            except Exception as e:
+                return e
+            return None
+
         with cpu_limit(30):
-            return "yes" if eval(expr, {"pvl": pvl, "raises": raises}) else "NO"
+            return "yes" if eval(expr, {"pvl": pvl, "raises": raises,
+                                        "caught": caught}) else "NO"
     except BaseException as e:
         return f"probe failed ({type(e).__name__})"
 
